@@ -1,6 +1,15 @@
 (* C09 (counting windows). Lines (value tokens and row syntax: see c04.ml):
      W <N> <ncols> <nrows> {id v..} # {nids ids..}                          batches read from the window's OutputChan, in order
      S <tag> <N> <ncols> <nrows> {id v..} # {v.. count first last nids ids..}   result rows through SQL, in sink order
+     L <cfg> <cap> <sentCount> <droppedCount> <input dropped> <E> {<free rows> <held rows> <seen waiting>}xE <N> <ncols> <nrows> {id v..} # {..as S..}
+         the lagging consumer (harness/c09lag.go): E episodes; in each the consumer of the window's output channel
+         received every batch cut from the episode's "free" rows, was then held in a synchronous sink while the "held"
+         rows were added (<seen waiting> batches in a channel of <cap> slots), and drained the channel afterwards.
+         Judged by chk_C09_sql when the model of the channel (Model/CountingLag.v, lag_run on exactly that schedule)
+         loses no batch, by chk_C09_lossy_sql (every result one N-block of its key, in order) when the drop-oldest
+         policy evicts some; then the results must be those of the batches the model's consumer received, each
+         aggregated on its own, and sentCount / droppedCount the model's. A case that passes all of that but lost
+         batches no counter accounts for is reported as chk evicted_uncounted (the code as it is: known finding F57).
    Carried numbers (Model/NumCarrier.v): a numeric value token names the Go type that carries the number,
        I<type>:<decimal>      F<type>:<hex of the float64 text>:<hex of the float32 text | ->
    with <type> in int i8 i16 i32 i64 uint u8 u16 u32 u64 f32 f64; the other value tokens are those of c04.ml.
@@ -90,6 +99,47 @@ let carried_verdict (chk : gclause option) (model : z list list) (impl : z list 
 
 let handle (toks : string list) : string =
   match toks with
+  | "L" :: _cfg :: cap :: sent :: wdropped :: idropped :: e :: rest ->
+      let cap = int_of_string cap and e = int_of_string e in
+      let (shape, rest) = C04.take (3 * e) rest in
+      (match rest with
+       | n :: ncols :: nrows :: rest ->
+           let n = int_of_string n and ncols = int_of_string ncols in
+           let (rows, r) = C04.parse_rows ncols (int_of_string nrows) rest in
+           (match r with
+            | "#" :: obs ->
+                if int_of_string idropped <> 0 then "ok"  (* rows were dropped before the window (C19's subject): the case does not speak about C09 *)
+                else
+                let res = C04.parse_results ncols true obs in
+                (* the schedule of the run *)
+                let rec episodes shape rows = (match shape with
+                    | f :: h :: seen :: shape' ->
+                        let (free, rows') = C04.take (int_of_string f) rows in
+                        let (held, rows'') = C04.take (int_of_string h) rows' in
+                        (free, held, int_of_string seen) :: episodes shape' rows''
+                    | _ -> []) in
+                let eps = episodes shape rows in
+                let sched = List.concat_map (fun (free, held, _) -> lag_episode free held (nat_of_int cap)) eps in
+                let s = lag_run cnt_key (nat_of_int n) (nat_of_int cap) sched in
+                let lost = int_of_nat s.lg_evicted + int_of_nat s.lg_dropped in
+                let chk = if lost = 0 then chk_C09_sql (nat_of_int n) rows res else chk_C09_lossy_sql (nat_of_int n) rows res in
+                let ids rs = List.map (fun r -> r.krid) rs in
+                let model = List.concat_map (fun (_, b) ->
+                    List.map snd (C04.sort_by_first (List.map (fun (t, rs) -> (t, ids rs)) (kgroup b)))) s.lg_taken in
+                let impl = List.map (fun g -> g.g_ids) res in
+                let differs = model <> impl in
+                (match chk with
+                 | Some c -> "chk " ^ C04.string_of_gclause c ^ (if lost > 0 then "_lossy" else "")
+                             ^ (if differs then " (results differ from the model's)" else "")
+                 | None ->
+                     if differs then "diff lag_results model=" ^ C04.show_batches model
+                     else if int_of_string sent <> int_of_nat s.lg_sent || int_of_string wdropped <> int_of_nat s.lg_dropped
+                     then Printf.sprintf "diff lag_counters model sentCount=%d droppedCount=%d" (int_of_nat s.lg_sent) (int_of_nat s.lg_dropped)
+                     else if lost > 0 && int_of_string wdropped < lost
+                     then Printf.sprintf "chk evicted_uncounted evicted=%d droppedCount=%s results_missing=%d" (int_of_nat s.lg_evicted) wdropped lost
+                     else if List.exists (fun (_, _, seen) -> seen >= 2) eps then "ok nt" else "ok")
+            | _ -> "bad line")
+       | _ -> "bad line")
   | "V" :: _tag :: n :: ncols :: nrows :: rest ->
       let n = int_of_string n and ncols = int_of_string ncols in
       let (crows, r) = parse_crows ncols (int_of_string nrows) rest in
